@@ -185,6 +185,24 @@ func (x *Exec) callFunction(st *State, fn *ssa.Function, bindings, args []Val, s
 	}
 	f := st.top()
 	if len(fn.Blocks) > 0 && (isGalaxy(fn) || (con != nil && con.Inline)) && x.inlinable(fn) && f.depth < x.maxDepth && !x.onStack(st, fn) {
+		if con != nil && len(con.Requires) > 0 {
+			// inlined callee with a contract: its precondition is still an obligation of the caller
+			env := &SpecEnv{x: x, st: st, vars: map[string]Val{}, what: "call of " + name, pkg: x.L.typesPkg(con.Pkg)}
+			for i, p := range fn.Params {
+				if i < len(args) {
+					env.vars[p.Name()] = args[i]
+				}
+			}
+			label := name
+			if ins != nil {
+				if l, ok := x.info(f.fn).callOrd[ins]; ok {
+					label = l
+				}
+			}
+			for i, r := range con.Requires {
+				x.oblige(st, "pre", fmt.Sprintf("%s%s:%s", f.callPath, label, clauseLabel(r, i)), x.evalClause(env, r, "precondition of "+name), r.Tags, "precondition of "+name+": "+r.Src)
+			}
+		}
 		x.inlineCall(st, fn, bindings, args, cont, ins)
 		return
 	}
